@@ -42,7 +42,7 @@ impl Vkeywitnesses {
     pub uninterp spec fn set_type(&self) -> CborSetType;
     #[verifier::external_body] pub fn new() -> (r: Self) ensures r.items() == Seq::<_>::empty() { unimplemented!() }
     #[verifier::external_body] pub fn add(&mut self, w: &Vkeywitness) -> (r: bool)
-        ensures final(self).force_orig() == old(self).force_orig(), final(self).set_type() == old(self).set_type(),
+        ensures r == !old(self).items().contains(*w), final(self).force_orig() == old(self).force_orig(), final(self).set_type() == old(self).set_type(),
                 old(self).items().contains(*w) ==> final(self).items() == old(self).items(),
                 !old(self).items().contains(*w) ==> final(self).items() == old(self).items().push(*w) { unimplemented!() }
     #[verifier::external_body] pub fn set_force_original_cbor_set_type(&mut self, f: bool)
@@ -56,7 +56,7 @@ impl BootstrapWitnesses {
     pub uninterp spec fn set_type(&self) -> CborSetType;
     #[verifier::external_body] pub fn new() -> (r: Self) ensures r.items() == Seq::<_>::empty() { unimplemented!() }
     #[verifier::external_body] pub fn add(&mut self, w: &BootstrapWitness) -> (r: bool)
-        ensures final(self).force_orig() == old(self).force_orig(), final(self).set_type() == old(self).set_type(),
+        ensures r == !old(self).items().contains(*w), final(self).force_orig() == old(self).force_orig(), final(self).set_type() == old(self).set_type(),
                 old(self).items().contains(*w) ==> final(self).items() == old(self).items(),
                 !old(self).items().contains(*w) ==> final(self).items() == old(self).items().push(*w) { unimplemented!() }
     #[verifier::external_body] pub fn set_force_original_cbor_set_type(&mut self, f: bool)
